@@ -1,5 +1,6 @@
 import Ecal.Lemmas.EvalHeap
 import Ecal.Lemmas.EvalPaths
+import Ecal.Lemmas.EvalWF
 import Ecal.Lemmas.EvalFrame
 import Ecal.Lemmas.EvalLists
 import Ecal.Lemmas.EvalNew
@@ -97,11 +98,36 @@ theorem inner_not_visible_outside (st : St) (t sc : Nat) (w v : String) (y : Val
     have : s ≠ t := by intro e; subst e; exact hnot hs
     simp [valueIn_withVar_other st t s w v y this]
 
-/-- A child scope hangs below its parent, a call frame is a new root: a scope created now (index = current
-    number of scopes) is on no chain of an existing scope whose chain stays inside the existing scopes. -/
-theorem fresh_scope_not_on_chain (st : St) : ∀ (f sc : Nat),
-    (∀ s ∈ st.chain f sc, s < st.scopes.size) → st.scopes.size ∉ st.chain f sc := by
-  intro f sc h hm; exact Nat.lt_irrefl _ (h _ hm)
+/-- "Code sees the variables of its enclosing BLOCKS": every block (if / loop / try / except / otherwise / finally /
+    interpolation) is evaluated in `newChild current name` — the existing child of that name when the block is
+    entered again (its variables survive: the code reuses block scopes by name), else a new scope whose parent is the
+    current scope.  On a well-formed scope table (`ScopesWF`: parents have smaller indices, listed children point
+    back) it stays well-formed, and the block scope is NOT on the chain of the current scope — so
+    `inner_not_visible_outside` applies: nothing defined in the block is visible from outside, while the block sees
+    the current scope first on its parent chain (`lookup_nearest`). -/
+theorem block_scope_under_current (st st' : St) (h : ScopesWF st) (cur c : Nat) (name : String) (hp : cur < st.scopes.size)
+    (hr : runM (newChild cur name) st = (.ok c, st')) :
+    ScopesWF st' ∧ (st'.scope c).parent = some cur ∧ c ∉ st'.chain 10000 cur ∧
+    st'.chain 10001 c = c :: st'.chain 10000 cur := by
+  obtain ⟨h1, h2, _, _, h5, _⟩ := newChild_spec st st' h cur c name hp hr
+  exact ⟨h1, h2, h5, by rw [show (10001 : Nat) = 10000 + 1 from rfl, St.chain, h2]⟩
+
+/-- … and a call frame (the new index) is on the chain of no scope that existed before the call: with
+    `call_does_not_write_enclosing_frames` (existing scopes unchanged) and `inner_not_visible_outside`, nothing a call
+    defines in its frame is visible from the caller or anywhere else outside. -/
+theorem frame_invisible_from_existing (st st' : St) (h : ScopesWF st) (f sc : Nat) (hsc : sc < st.scopes.size)
+    (hkeep : ∀ t, t < st.scopes.size → st'.scope t = st.scope t) : st.scopes.size ∉ st'.chain f sc :=
+  frame_not_on_existing_chains st st' h f sc hsc hkeep
+
+/-- the table the evaluator starts with, and the ways it grows, are well-formed: initial global scope, new root,
+    variable writes (`newChild`: see above) -/
+theorem scopes_wf_preserved :
+    (∀ name, ScopesWF { scopes := #[{ name := name, parent := none, children := [], vars := [] }] }) ∧
+    (∀ st name, ScopesWF st → ScopesWF { st with scopes := st.scopes.push { name := name, parent := none, children := [], vars := [] } }) ∧
+    (∀ st sc v x, ScopesWF st → ScopesWF (st.withVar sc v x)) :=
+  ⟨wf_initial, fun st name h => wf_newRoot st h name, fun st sc v x h => wf_withVar st h sc v x⟩
+
+example : ∃ c st', runM (newChild 0 "block: if (Line:1 Pos:1)") { scopes := #[⟨"g", none, [], []⟩] } = (.ok c, st') := ⟨_, _, rfl⟩
 
 /-- `runFunction` (inside the mutual block of the evaluator) builds its frame with `buildFrame`, evaluating
     defaults in the CALLER's scope, and evaluates the body in that frame. -/
